@@ -34,11 +34,14 @@ def run(ctx):
     failures = list(rep["oracle_failures"])
     # ---- the same model solved through the builder, the one-shot solver and the staged pipes (watchdogged worker)
     path = os.path.join(ctx.work, "cases.jsonl")
-    cases = [json.loads(l) for l in open(path)]
-    nsolve = min(len(cases), 250 if ctx.quick() else 4000)
+    allcases = [json.loads(l) for l in open(path)]
+    text_only = [c for c in allcases if c["case"] is None]
+    built = [c for c in allcases if c["case"] is not None]
+    cases = built[:(250 if ctx.quick() else 4000)] + text_only
+    nsolve = len(cases)
     sub = os.path.join(ctx.work, "solve.jsonl")
     with open(sub, "w") as f:
-        for c in cases[:nsolve]:
+        for c in cases:
             f.write(json.dumps(c) + "\n")
     results = S.run_worker(binary, sub, nsolve, 3, call_timeout=10.0)
     verdicts = collections.Counter()
@@ -46,6 +49,17 @@ def run(ctx):
     for i in range(nsolve):
         c = cases[i]["case"]; text = cases[i]["text"]
         rs = [results.get((i, k)) or {"status": "missing"} for k in range(3)]
+        if c is None:
+            # text-only probe: the one-shot solver and the staged pipes must agree on accept / reject
+            if any(r["status"] in ("timeout", "abort", "missing") for r in rs[1:]):
+                verdicts["watchdog/abort (not compared)"] += 1
+                continue
+            a, b = rs[1]["status"] == "compile-error", rs[2]["status"] == "compile-error"
+            verdicts["text-only:" + ("rejected" if a else "accepted")] += 1
+            if a != b:
+                failures.append({"prop": "C16", "kind": "entry-points-disagree-on-verdict", "class": "unclassified", "text": text,
+                                 "what": "%s says %s, %s says %s" % (names[2], rs[2], names[1], rs[1])})
+            continue
         if any(r["status"] in ("timeout", "abort", "missing") for r in rs):
             verdicts["watchdog/abort (not compared)"] += 1
             continue
